@@ -137,6 +137,17 @@ def run(ctx):
                     ctx.violations.append(dict(what="profile does not relax to the frac-face value", key="relax",
                                                input=rescorr.replay_payload(c),
                                                observed=dict(final_dev=float(devs[-1]), frac=g, max_increase=float(np.diff(devs).max()))))
+    # the same conclusions when the iterative solver reports failure on every other step (it does so by itself on fine grids):
+    # the levels the direct-solve fallback stores obey the maximum principle too
+    from checks.C04 import Probe
+    for c in [c_ for c_ in cases if c_["kind"] == "single" and len(c_["times"]) * c_["nx"] <= 4000][:4] + [c_ for c_ in cases if c_["kind"] == "ideal"][:2]:
+        with Probe(fail_every=2, fail_info=-10):
+            imf = rescorr.run_impl(c)
+        for v in conclusions(c, imf):
+            if [e for e in core.known_findings(ID) if e["status"] == "known" and e.get("key") == v.get("key")]:
+                continue
+            ctx.violations.append(dict(what=v["what"] + " (direct-solve fallback exercised: iterative solver made to report failure on every other step)",
+                                       key=v["what"] + "-fallback", input=rescorr.replay_payload(c), observed=v))
     # model <-> implementation (float instance of the model evaluated by Coq)
     small = [k for k, c in enumerate(cases) if len(c["times"]) * c["nx"] <= 4000]
     res = rescorr.run_cases(ctx, [cases[k] for k in small], [impls[k] for k in small], "C01", shard=3)
